@@ -419,7 +419,7 @@ func c06TreeFacts(t Tree, block int64) c06Facts {
 		}
 	}
 	for d, b := range bytesIn {
-		if int64(b+68) > block*9/10 { // records do not straddle blocks, so a directory can spill a little earlier
+		if int64(b+68) > 2048*9/10 { // beyond one 2048-byte sector (records do not straddle sectors, so a directory spills a little earlier)
 			f.bigJolietDirs[d] = true
 		}
 	}
@@ -439,7 +439,7 @@ func c06Cause(mode string, o ISOOpts, facts c06Facts, detail string) string {
 			if j := strings.Index(rest, "\""); j >= 0 {
 				dir := strings.TrimPrefix(rest[:j], "/")
 				if facts.bigJolietDirs[dir] {
-					return "joliet-directory-larger-than-one-block"
+					return "joliet-directory-larger-than-one-sector"
 				}
 				if facts.nonASCIIDirs[dir] {
 					return "joliet-directory-with-a-non-ascii-name"
